@@ -47,14 +47,24 @@ BODY = {
     'postInvert': ["def m(translator, node):\n    return '~' + node.expr.src\n",        # AttributeError on Python 3: kind not printable
                    "def m(translator, node):\n    return '~' + node.operand.src\n"],
     'postPow': ["def m(translator, node):\n    return binop_src(' ** ', node)\n"],
-    'postAttribute': ["def m(translator, node):\n    return '.'.join((node.value.src, node.attr))\n"],
+    'postAttribute': ["def m(translator, node):\n    return '.'.join((node.value.src, node.attr))\n",
+                      "def m(translator, node):\n    return '.'.join((receiver_src(node.value), node.attr))\n"],
     'postCall': ["def m(translator, node):\n    if len(node.args) == 1 and isinstance(node.args[0], ast.GeneratorExp):\n"
                  "        return node.func.src + node.args[0].src\n    args = [ arg.src for arg in node.args ] + [ kw.src for kw in node.keywords ]\n"
-                 "    return '%s(%s)' % (node.func.src, ', '.join(args))\n"],
+                 "    return '%s(%s)' % (node.func.src, ', '.join(args))\n",
+                 "def m(translator, node):\n    if len(node.args) == 1 and isinstance(node.args[0], ast.GeneratorExp):\n"
+                 "        return receiver_src(node.func) + node.args[0].src\n    args = [ arg.src for arg in node.args ] + [ kw.src for kw in node.keywords ]\n"
+                 "    return '%s(%s)' % (receiver_src(node.func), ', '.join(args))\n"],
     'postSubscript': ["def m(translator, node):\n    x = node.slice\n    if isinstance(x, ast.Index):\n        x = x.value\n"
                       "    if isinstance(x, ast.Tuple):\n        key = ', '.join([elt.src for elt in x.elts])\n"
                       "    elif isinstance(x, ast.Constant) and isinstance(x.value, tuple):\n        key = repr(x.value)[1:-1]\n"
-                      "    else:\n        key = x.src\n    return '%s[%s]' % (node.value.src, key)\n"],
+                      "    else:\n        key = x.src\n    return '%s[%s]' % (node.value.src, key)\n",
+                      "def m(translator, node):\n    x = node.slice\n    if isinstance(x, ast.Index):\n        x = x.value\n"
+                      "    if isinstance(x, ast.Tuple) and not x.elts:\n        key = '()'\n"
+                      "    elif isinstance(x, ast.Tuple) and len(x.elts) == 1:\n        key = x.elts[0].src + ','\n"
+                      "    elif isinstance(x, ast.Tuple):\n        key = ', '.join([elt.src for elt in x.elts])\n"
+                      "    elif isinstance(x, ast.Constant) and isinstance(x.value, tuple):\n        key = repr(x.value)[1:-1]\n"
+                      "    else:\n        key = x.src\n    return '%s[%s]' % (receiver_src(node.value), key)\n"],
     'postIfExp': ["def m(translator, node):\n    return '%s if %s else %s' % (node.body.src, node.test.src, node.orelse.src)\n"],
     'postLambda': ["def m(translator, node):\n    return 'lambda %s: %s' % (node.args.src, node.body.src)\n"],
     'postTuple': ["def m(translator, node):\n    if len(node.elts) == 1:\n        return '(%s,)' % node.elts[0].src\n"
@@ -72,8 +82,10 @@ BODY = {
                       "        elif isinstance(item, ast.FormattedValue):\n            if item.conversion == -1:\n"
                       "                src = '{%s}' % item.value.src\n            else:\n"
                       "                src = '{%s!%s}' % (item.value.src, chr(item.conversion))\n            result.append(src)\n"
-                      "        else:\n            assert False\n    return \"f%r\" % ''.join(result)\n"],
-    'postFormattedValue': ["def m(self, node):\n    return node.value.src\n"],
+                      "        else:\n            assert False\n    return \"f%r\" % ''.join(result)\n",
+                      "def m(self, node):\n    return \"f%r\" % joinedstr_body(node)\n"],
+    'postFormattedValue': ["def m(self, node):\n    return node.value.src\n",
+                           "def m(self, node):\n    return \"f%r\" % formattedvalue_src(node)\n"],
     'postarguments': ["def m(translator, node):\n    if node.defaults:\n        nodef_args = node.args[:-len(node.defaults)]\n"
                       "        def_args = node.args[-len(node.defaults):]\n    else:\n        nodef_args = node.args\n        def_args = []\n\n"
                       "    result = [arg.arg for arg in nodef_args]\n"
@@ -82,7 +94,26 @@ BODY = {
                       "        result.append('**%s' % node.kwarg.arg)\n    return ', '.join(result)\n"],
 }
 # f-string flags per accepted postJoinedStr body: (format spec printed, literal braces re-escaped)
-FSTR_FLAGS = [(False, False)]
+FSTR_FLAGS = [(False, False), (True, True)]
+
+# helpers that exist only in the repaired code; each must be exactly this when a method body uses it
+HELPERS = {
+    'receiver_src': "def receiver_src(node):\n    src = node.src\n"
+                    "    if getattr(node, 'priority', 0) > 2 or isinstance(node, ast.Constant) and type(node.value) is int:\n"
+                    "        src = '(%s)' % src\n    return src\n",
+    'formattedvalue_src': "def formattedvalue_src(item):\n    src = '{' + item.value.src\n    if item.conversion != -1:\n        src += '!' + chr(item.conversion)\n"
+                          "    if getattr(item, 'format_spec', None) is not None:\n        spec = item.format_spec\n"
+                          "        src += ':' + (joinedstr_body(spec) if isinstance(spec, ast.JoinedStr) else spec.value.replace('{', '{{').replace('}', '}}'))\n"
+                          "    return src + '}'\n",
+    'joinedstr_body': "def joinedstr_body(node):\n    result = []\n    for item in node.values:\n        if isinstance(item, ast.Constant):\n"
+                      "            assert isinstance(item.value, str)\n            result.append(item.value.replace('{', '{{').replace('}', '}}'))\n"
+                      "        elif not PY38 and isinstance(item, ast.Str):\n            result.append(item.s.replace('{', '{{').replace('}', '}}'))\n"
+                      "        elif isinstance(item, ast.FormattedValue):\n            result.append(formattedvalue_src(item))\n"
+                      "        else:\n            assert False\n    return ''.join(result)\n",
+}
+RECEIVER_THRESHOLD = 2       # the `> 2` of receiver_src (part of the template above)
+
+NEG_CONST_IF = ("if type(value) in (int, float) and repr(value).startswith('-'):\n    node.priority = 0\n")
 
 CMP_METHODS = {'postEq': '==', 'postNotEq': '!=', 'postLt': '<', 'postLtE': '<=', 'postGt': '>', 'postGtE': '>=', 'postIs': 'is',
                'postIsNot': 'is not', 'postIn': 'in', 'postNotIn': 'not in'}
@@ -192,7 +223,17 @@ def scan(repo=None):
                 raise TranslateError('%s: decorator not understood: %s' % (name, ast.unparse(d)))
         own = thr
         body = []
+        extra = {}
         for i, s in enumerate(fn.body):
+            if name == 'postConstant' and isinstance(s, ast.If) and len(s.body) == 1 and isinstance(s.body[0], ast.Assign) \
+                    and isinstance(s.body[0].value, ast.Constant) and type(s.body[0].value.value) is int and s.body[0].value.value >= 0:
+                k = s.body[0].value.value
+                probe = ast.parse(ast.unparse(s)).body[0]
+                probe.body[0].value = ast.Constant(value=0)
+                if ast.dump(probe) != ast.dump(ast.parse(NEG_CONST_IF).body[0]):
+                    raise TranslateError('postConstant: conditional priority assignment not understood: %s' % ast.unparse(s))
+                extra['neg_priority'] = k          # a negative number constant gets this priority
+                continue
             if isinstance(s, ast.Assign) and len(s.targets) == 1 and isinstance(s.targets[0], ast.Attribute) and s.targets[0].attr == 'priority' \
                     and isinstance(s.targets[0].value, ast.Name) and s.targets[0].value.id == 'node':
                 if not (isinstance(s.value, ast.Constant) and type(s.value.value) is int and s.value.value >= 0):
@@ -212,13 +253,14 @@ def scan(repo=None):
         if variant is None:
             raise TranslateError('PythonTranslator.%s: body is not one of the layouts the Coq printer models:\n%s' % (
                 name, '\n'.join(ast.unparse(x) for x in body)))
-        return own, thr, variant
+        return own, thr, variant, extra
 
     own, threshold, kind_ok = {}, {}, {}
     variants = {}
     for k, m in METHOD.items():
-        o, t, v = analyse(m)
+        o, t, v, extra = analyse(m)
         own[k] = default if o is None else o
+        if k == 'NegConst' and 'neg_priority' in extra: own[k] = extra['neg_priority']
         threshold[k] = t
         variants[m] = v
         kind_ok[k] = True
@@ -229,12 +271,24 @@ def scan(repo=None):
         if fn is None or fn.decorator_list or _dump_fn(fn) != _tmpl("def m(translator, node):\n    return %r\n" % sym):
             raise TranslateError('PythonTranslator.%s is not `return %r`' % (m, sym))
     keep_spec, escape = FSTR_FLAGS[variants['postJoinedStr']]
-    return {'own': own, 'threshold': threshold, 'cmp': cmp, 'default': default, 'kind_ok': kind_ok, 'keep_spec': keep_spec, 'escape': escape}
+    receiver = {'Attribute': variants['postAttribute'] == 1, 'Call': variants['postCall'] == 1, 'Subscript': variants['postSubscript'] == 1}
+    used = set()
+    if any(receiver.values()): used.add('receiver_src')
+    if variants['postJoinedStr'] == 1: used |= {'joinedstr_body', 'formattedvalue_src'}
+    if variants['postFormattedValue'] == 1: used |= {'formattedvalue_src', 'joinedstr_body'}
+    for h in sorted(used):
+        node = _last(top, h, ast.FunctionDef)
+        if node is None or _dump_fn(node) != _tmpl(HELPERS[h]):
+            raise TranslateError('%s: helper %s is missing or is no longer the code the printer model was written for' % (REL, h))
+    return {'own': own, 'threshold': threshold, 'cmp': cmp, 'default': default, 'kind_ok': kind_ok, 'keep_spec': keep_spec, 'escape': escape,
+            'receiver': receiver, 'receiver_threshold': RECEIVER_THRESHOLD, 'short_idx': variants['postSubscript'] == 1,
+            'bare_formatted_is_operand': variants['postFormattedValue'] == 0}
 
 
 def pony_needs_fn(tbl):
     """Python mirror of the generated Coq `pony_needs`."""
     def needs(p, i, c):
+        if i == 0 and tbl.get('receiver', {}).get(p) and tbl['own'][c] > tbl['receiver_threshold']: return True
         t = tbl['threshold'][p]
         if t is None: return False
         return tbl['own'][c] >= t if tbl['cmp'] == '>=' else tbl['own'][c] > t
@@ -254,18 +308,25 @@ def generate():
     for k in KINDS: L.append('  | K%s => %s' % (k, 'None' if tbl['threshold'][k] is None else 'Some %d' % tbl['threshold'][k]))
     L += ['  end.', '', '(* `if getattr(child, "priority", %d) %s p: child.src = "(%%s)" %% child.src`, for every child alike *)' % (tbl['default'], tbl['cmp']),
           'Definition wraps (child_priority p : nat) : bool := %s.' % ('p <=? child_priority' if tbl['cmp'] == '>=' else 'p <? child_priority'), '',
+          '(* postAttribute / postCall / postSubscript print their object through receiver_src: parenthesised when its priority is > %d *)' % tbl['receiver_threshold'],
+          'Definition receiver_wraps (p : kind) : bool :=', '  match p with'] + ['  | K%s => %s' % (k, 'true' if v else 'false') for k, v in sorted(tbl['receiver'].items())] + [
+          '  | _ => false', '  end.',
+          'Definition receiver_threshold : nat := %d.' % tbl['receiver_threshold'], '',
           'Definition pony_needs (p : kind) (i : nat) (c : kind) : bool :=',
-          '  match wrap_threshold p with Some t => wraps (own_priority c) t | None => false end.', '',
+          '  match wrap_threshold p with Some t => wraps (own_priority c) t | None => false end',
+          '  || (receiver_wraps p && Nat.eqb i 0 && (receiver_threshold <? own_priority c)).', '',
+          '(* postSubscript: x[a,] keeps its comma and x[()] its parentheses *)',
+          'Definition pony_short_idx : bool := %s.' % ('true' if tbl['short_idx'] else 'false'), '',
           '(* postJoinedStr: is the format spec printed / are literal braces doubled again *)',
           'Definition pony_keep_spec : bool := %s.' % ('true' if tbl['keep_spec'] else 'false'),
           'Definition pony_escape_braces : bool := %s.' % ('true' if tbl['escape'] else 'false'), '',
           '(* postFormattedValue returns the source of its operand: a FormattedValue that is not inside a JoinedStr (what the decompiler',
           '   produces for a one-field f-string) is printed as the bare operand, conversion and spec are lost *)',
-          'Definition pony_bare_formatted_is_operand : bool := true.', '',
+          'Definition pony_bare_formatted_is_operand : bool := %s.' % ('true' if tbl['bare_formatted_is_operand'] else 'false'), '',
           '(* false: the method reads a field the node does not have (AttributeError), the kind cannot be printed at all *)',
           'Definition pony_kind_ok (k : kind) : bool :=', '  match k with']
     bad = [k for k in KINDS if not tbl['kind_ok'][k]]
     for k in bad: L.append('  | K%s => false' % k)
     L += ['  | _ => true' if len(bad) < len(KINDS) else '', '  end.', '',
-          'Definition pony_style : style := {| needs := pony_needs; keep_spec := pony_keep_spec |}.', '']
+          'Definition pony_style : style := {| needs := pony_needs; keep_spec := pony_keep_spec; short_idx := pony_short_idx |}.', '']
     return '\n'.join(L)
